@@ -539,6 +539,7 @@ pub fn run(ctx: &Ctx) -> (Report, Meta) {
             1 => ctx.tier.pick(60, 2500),
             _ => ctx.tier.pick(40, 1500),
         };
+        c.case_base = off;
         rep.merge(run_cases(&c, n, &|cx, j, r, rep| f(cx, j + off, r, rep)));
     }
     let meta = Meta {
